@@ -143,6 +143,17 @@ def apply_mutations(word, muts, geom):
         elif kind == "del" and n > 1:
             i = m[1] % n
             word = word[:i] + word[i + 1:]
+        elif kind == "tandem":
+            # a second copy of the recognition site overlapping an existing one
+            # (possible when the site has a border, e.g. CGTCTC + GTCTC)
+            w = geom.site if m[2] else geom.rsite
+            b = max([k for k in range(1, len(w)) if w[:k] == w[-k:]] or [0])
+            occ = dna.circ_find_all(word, w)
+            if b and occ:
+                p = occ[m[1] % len(occ)]
+                e = p + len(w)
+                if e <= n:
+                    word = word[:e] + w[b:] + word[e:]
     return word
 
 
@@ -170,6 +181,8 @@ def mutation(draw, other_words=()):
     if kind <= 6:
         return ["ins_site", draw(st.integers(0, 400)), draw(st.booleans())]
     if kind == 7:
+        if draw(st.booleans()):
+            return ["tandem", draw(st.integers(0, 3)), draw(st.booleans())]
         return ["trunc", draw(st.integers(1, 400))]
     if kind == 8:
         return ["del", draw(st.integers(0, 400))]
